@@ -24,6 +24,19 @@ TypeSeq == SetToSeq({t \in StructTypes :
               /\ t.f[1].mode \in Modes(t.f[1].t) /\ t.f[2].mode \in Modes(t.f[2].t)
               /\ WellFormed(t.f[1].t, t.f[1].tag, t.f[1].mode, t.f[2].t, t.f[2].tag, t.f[2].mode)})
 
+\* every numeric kind x its boundaries, as a plain field, behind a pointer, in a slice, an array and a map
+NumWraps(k) == {T(k), TPtr(T(k)), TSlice(T(k)), TArr(T(k)), TMap(T(k))}
+NumType(w) == TStruct(<<Fld("F0", <<>>, "", w), Fld("F1", <<"n">>, "", T("bool"))>>)
+NumWrapVal(w, x, y) ==
+  CASE w.k = "ptr" -> [k |-> "ptr", p |-> x]
+    [] w.k = "slice" -> [k |-> "slice", xs |-> <<x, y>>]
+    [] w.k = "array" -> [k |-> "array", xs |-> <<x, y>>]
+    [] w.k = "map" -> [k |-> "map", m |-> [q \in {"k"} |-> x]]
+    [] OTHER -> x
+NumCases == UNION {{<<NumType(w), [k |-> "struct", f |-> <<NumWrapVal(w, x, y), V("bool", TRUE)>>]>> :
+                        w \in NumWraps(k), x \in NumV(k), y \in NumV(k)} : k \in NumKinds}
+NumCaseSeq == SetToSeq(NumCases)
+
 VARIABLES bk, cs
 vars == <<bk, cs>>
 Case(ty, val) ==
@@ -33,11 +46,15 @@ Case(ty, val) ==
   IN [ty |-> ty, val |-> val, tree |-> Pack(ty, val), exp |-> [ideal |-> ideal, alts |-> SetToSeq(diff)]]
 Init == bk \in 0..63 /\ cs = <<>>
 Next == /\ cs = <<>> /\ UNCHANGED bk
-        /\ \E i \in {j \in 1..Len(TypeSeq) : j % 64 = bk} : \E val \in Vals(TypeSeq[i]) :
-              cs' = <<i, val>> /\ PrintT(ToJson(Case(TypeSeq[i], val)))
+        /\ \/ \E i \in {j \in 1..Len(TypeSeq) : j % 64 = bk} : \E val \in Vals(TypeSeq[i]) :
+                 cs' = <<i, val>> /\ PrintT(ToJson(Case(TypeSeq[i], val)))
+           \/ \E i \in {j \in 1..Len(NumCaseSeq) : j % 64 = bk} :
+                 cs' = <<0, i>> /\ PrintT(ToJson(Case(NumCaseSeq[i][1], NumCaseSeq[i][2])))
 View == <<bk, cs = <<>> >>
 \* C06 at the model level: the round trip is the identity on the Ideal layer
-Identity == cs # <<>> => RoundTrip({}, TypeSeq[cs[1]], cs[2]) = [ok |-> cs[2]]
+CsTy  == IF cs[1] = 0 THEN NumCaseSeq[cs[2]][1] ELSE TypeSeq[cs[1]]
+CsVal == IF cs[1] = 0 THEN NumCaseSeq[cs[2]][2] ELSE cs[2]
+Identity == cs # <<>> => RoundTrip({}, CsTy, CsVal) = [ok |-> CsVal]
 \* ... and the packed tree never is a duplicate-key error for a well-formed type
-PackOK == cs # <<>> => ~IsErr(Pack(TypeSeq[cs[1]], cs[2]))
+PackOK == cs # <<>> => ~IsErr(Pack(CsTy, CsVal))
 ==========================================================================
